@@ -40,6 +40,7 @@ type Outcome struct {
 	SiteHits     map[string]uint64 `json:"site_hits,omitempty"`
 	NonTrivial   bool              `json:"nontrivial"`
 	Hazards      int               `json:"hazards,omitempty"`
+	HazardNames  map[string]int    `json:"hazard_names,omitempty"`
 	Trace        []string          `json:"trace,omitempty"`
 	Ops          int               `json:"ops"`
 }
@@ -160,6 +161,7 @@ func runStandard(t *testing.T, p *Prop, sc *world.Scenario, out *Outcome) {
 	out.SimMs = w.S.SimTime().Milliseconds()
 	out.Hash = w.S.Hash()
 	out.Hazards = w.S.Hazards
+	out.HazardNames = w.S.HazardNames
 	out.Fired = w.KV.Fired
 	out.SiteHits = w.S.SiteHits
 	out.Ops = len(w.Recs)
